@@ -71,12 +71,16 @@ class Module(object):
             decl = [canon_decl(x) for x in ctx.declarations(n, [])]
         except RecursionError:
             decl = 'RecursionError'
+        attrs = None
         try:
             v = ctx.evaluate(n)
             ev = type(v).__name__
+            if v is not None:
+                attrs = sorted(a for a in v.attr_list(ctx) if not a.startswith('__'))
+                attrs = attrs if len(attrs) < 12 else [len(attrs), hash_list(attrs)]
         except RecursionError:
             ev = 'RecursionError'
-        return json.dumps([view, len(visible), hash_list(visible), decl, ev])
+        return json.dumps([view, len(visible), hash_list(visible), decl, ev, attrs])
 
     def state(self):
         return e2.fingerprint([self.scope, supp.scope.builtin_scope])
@@ -143,7 +147,7 @@ def check_text(text, part, max_states=400):
 def diff_field(a, b):
     try:
         a, b = json.loads(a), json.loads(b)
-        for i, f in enumerate(('alternatives', 'visible-count', 'visible-names', 'declarations', 'value')):
+        for i, f in enumerate(('alternatives', 'visible-count', 'visible-names', 'declarations', 'value', 'attributes')):
             if a[i] != b[i]:
                 return f
     except Exception:
@@ -224,7 +228,7 @@ while val:
     val = make()
 '''
 
-REQS = [
+REQS_LOOP = [
     ('assist', 'import mloop\nmloop.', (2, 6)),
     ('assist', 'import mloop\nmloop.K().', (2, 10)),
     ('assist', 'from mloop import make\nmake().', (2, 7)),
@@ -235,13 +239,25 @@ REQS = [
 ]
 
 
-def project_search(part):
+REQS_CLS = [
+    ('assist', 'import mcls\nmcls.Shape().', (2, 13)),
+    ('assist', 'import mcls\nmcls.Circle().', (2, 14)),
+    ('assist', 'import mcls\nmcls.Ring().', (2, 12)),
+    ('assist', 'from mcls import Shape\nShape.', (2, 6)),
+    ('location', 'from mcls import Ring\nRing().area\n', (2, 11)),
+    ('assist', 'from mcls import *\nRing().hole().', (2, 14)),
+]
+
+
+def project_search(part, which='loop'):
     import tempfile
     import shutil
     out = []
+    REQS = REQS_LOOP if which == 'loop' else REQS_CLS
     root = tempfile.mkdtemp(prefix='c04proj')
     try:
         open(os.path.join(root, 'mloop.py'), 'w').write(MLOOP)
+        open(os.path.join(root, 'mcls.py'), 'w').write(MCLS)
         shutil.copy(os.path.join(nc.PROJECT_DIR, 'm2.py'), root)
         x = os.path.join(root, 'x.py')
 
@@ -277,7 +293,7 @@ def project_search(part):
                 out.append(('project-history-dependent:%s' % REQS[ev][0],
                             'request %r answers %s after request history %s on one Project but %s on a fresh Project' % (
                                 REQS[ev], obs[:300], hist, ref[ev][:300]),
-                            {'kind': 'project'}))
+                            {'kind': 'project', 'which': which}))
 
         s = e2.Search(build, list(range(len(REQS))), lambda P: e2.fingerprint([P, supp.scope.builtin_scope]), max_states=600).run(on_transition)
         part.count('states', s.states)
@@ -292,7 +308,23 @@ def project_search(part):
 
 # ------------------------------------------------------------------ spaces / units
 
+MCLS = '''\
+class Shape(object):
+    def area(self):
+        return 0
+class Circle(Shape):
+    def radius(self):
+        self.r = 1
+        return self.r
+class Ring(Circle):
+    def hole(self):
+        return Shape()
+'''
+
 CYCLIC = [
+    MCLS + 's = Shape()\nc = Circle()\nr = Ring()\ns\nc\nr\nShape\nRing\nr.hole()\n',
+    'class A:\n    x = 1\nclass B(A):\n    y = 2\nclass C(B, A):\n    z = 3\nb = B()\nc = C()\na = A()\nc\nb\na\nA\nC\n',
+
     'a = 0\nb = a\na = b\nb\na\n',
     'def f():\n    return g()\ndef g():\n    return f()\nf\ng\nf()\n',
     'class A(B): pass\nclass B(A): pass\nA\nB\nA()\n',
@@ -321,7 +353,7 @@ def space(tier):
         if loops and nr >= 2:
             k4.append(p)
     if tier == 'quick':
-        k4 = k4[::12]
+        k4 = k4[::30]
     return out + k4
 
 
@@ -356,10 +388,10 @@ def unit_file(path):
     return part
 
 
-def unit_project(_):
+def unit_project(which):
     part = Part()
     part.count('evaluations')
-    for sig, what, wit in project_search(part):
+    for sig, what, wit in project_search(part, which):
         part.violation(sig, what, wit)
     part.outcome('project')
     return part
@@ -383,7 +415,7 @@ def replay(w):
         return [(s, wh) for s, wh, _ in check_text(w['text'], p, max_states=1500)]
     if w['kind'] == 'file':
         return [(s, wh) for s, wh, _ in check_file(w['path'], p)]
-    return [(s, wh) for s, wh, _ in project_search(p)]
+    return [(s, wh) for s, wh, _ in project_search(p, w.get('which', 'loop'))]
 
 
 def run(ctx):
@@ -393,12 +425,12 @@ def run(ctx):
     units = [(unit_progs, (ctx.tier, lo, min(len(sp), lo + step))) for lo in range(0, len(sp), step)]
     units += [(unit_text, t) for t in CYCLIC]
     units += [(unit_file, f) for f in sorted(set(repo_files(ctx.tier)))]
-    units += [(unit_project, None)]
+    units += [(unit_project, 'loop'), (unit_project, 'cls')]
     ctx.pmap(_dispatch, ctx.shuffled(units), chunksize=1)
     c = ctx.counters
     ex = sp[len(sp) // 2]
     ctx.sample({'kind': 'generated module, all query histories to closure', 'source': ps.render(ex, 'plain').text})
-    ctx.sample({'kind': 'project request alphabet', 'requests': [list(map(str, r)) for r in REQS]})
+    ctx.sample({'kind': 'project request alphabet', 'requests': [list(map(str, r)) for r in REQS_LOOP + REQS_CLS]})
     ctx.coverage.update({
         'states': int(c['states']),
         'transitions': int(c['transitions']),
